@@ -196,6 +196,15 @@ class PCSO(PUSO):
         """
         PCBO.__init__(self, *args, **kwargs)
 
+    def __imul__(self, other):
+        """__imul__.
+
+        Same as ``PUSO.__imul__``, but the recorded constraints and the ancilla
+        counter are kept. See ``PCBO.__imul__``.
+
+        """
+        return PCBO.__imul__(self, other)
+
     def update(self, *args, **kwargs):
         """update.
 
